@@ -13,6 +13,8 @@ Streams
 """
 import itertools
 import operator
+import signal
+from contextlib import contextmanager
 
 import numpy as np
 
@@ -43,6 +45,38 @@ KF_MEMO = 'memo-stale-after-link-change'
 
 
 # ====================================================================== helpers
+class Hang(Exception):
+    pass
+
+
+HANGS = [0]
+
+
+def too_many_hangs():
+    if HANGS[0] >= 3:
+        raise RuntimeError('the implementation did not return within the time limit %d times; aborting the search '
+                           '(the failures recorded so far are reported)' % HANGS[0])
+
+
+@contextmanager
+def time_limit(seconds):
+    """turn a non-terminating call of the implementation into an exception (reported by the oracle)"""
+    def handler(signum, frame):
+        HANGS[0] += 1
+        raise Hang('no result after %s s' % seconds)
+    try:
+        old = signal.signal(signal.SIGALRM, handler)
+    except ValueError:      # not in the main thread
+        yield
+        return
+    signal.setitimer(signal.ITIMER_REAL, seconds)
+    try:
+        yield
+    finally:
+        signal.setitimer(signal.ITIMER_REAL, 0)
+        signal.signal(signal.SIGALRM, old)
+
+
 def mkfn(spec):
     c0, coefs = spec
     coefs = tuple(coefs)
@@ -277,7 +311,8 @@ class Impl:
             self._reg((d, 0), D.pixel_component_ids[0])
             if coords is not None:
                 self._reg((d, 1), D.world_component_ids[0])
-        self.dc = DataCollection([self.data[ds['id']] for ds in case['datasets'] if ds['member']])
+        with time_limit(10):
+            self.dc = DataCollection([self.data[ds['id']] for ds in case['datasets'] if ds['member']])
         self.universe = sorted(case['vals'])
         self.persistent = None
         self.pcache = {}
@@ -323,44 +358,48 @@ class Impl:
                 return i
         return -1
 
-    def apply(self, o):
-        """returns the code: 0 done, 1 AttributeError, 2 ValueError"""
+    def _do(self, o):
         k = o[0]
         dc = self.dc
+        if k == 'addlink':
+            dc.add_link(self.entry(o[1]))
+        elif k == 'removelink':
+            dc.remove_link(self.entry(o[1]))
+        elif k == 'setlinks':
+            dc.set_links([self.entry(i) for i in o[1]])
+        elif k == 'addcomp':
+            D = self.data[o[1]]
+            c = self.getcid((o[1], o[2]))
+            if c not in D.components:
+                D.add_component(np.array(self.case['vals'][(o[1], o[2])], dtype=np.int64), c)
+        elif k == 'removecomp':
+            self.data[o[1]].remove_component(self.getcid((o[1], o[2])))
+        elif k == 'adddata':
+            dc.append(self.data[o[1]])
+        elif k == 'removedata':
+            dc.remove(self.data[o[1]])
+        elif k == 'coordsnone':
+            self.data[o[1]].coords = None
+        elif k == 'delaybegin':
+            cm = dc.delay_link_manager_update()
+            cm.__enter__()
+            self.delays.append(cm)
+        elif k == 'delayend':
+            if self.delays:
+                self.delays.pop().__exit__(None, None, None)
+        else:
+            raise RuntimeError('unknown op %r' % (o,))
+
+    def apply(self, o):
+        """returns the code: 0 done, 1 AttributeError, 2 ValueError, 9 anything else (a hang included)"""
         try:
-            if k == 'addlink':
-                dc.add_link(self.entry(o[1]))
-            elif k == 'removelink':
-                dc.remove_link(self.entry(o[1]))
-            elif k == 'setlinks':
-                dc.set_links([self.entry(i) for i in o[1]])
-            elif k == 'addcomp':
-                D = self.data[o[1]]
-                c = self.getcid((o[1], o[2]))
-                if c not in D.components:
-                    D.add_component(np.array(self.case['vals'][(o[1], o[2])], dtype=np.int64), c)
-            elif k == 'removecomp':
-                self.data[o[1]].remove_component(self.getcid((o[1], o[2])))
-            elif k == 'adddata':
-                dc.append(self.data[o[1]])
-            elif k == 'removedata':
-                dc.remove(self.data[o[1]])
-            elif k == 'coordsnone':
-                self.data[o[1]].coords = None
-            elif k == 'delaybegin':
-                cm = dc.delay_link_manager_update()
-                cm.__enter__()
-                self.delays.append(cm)
-            elif k == 'delayend':
-                if self.delays:
-                    self.delays.pop().__exit__(None, None, None)
-            else:
-                raise RuntimeError('unknown op %r' % (o,))
+            with time_limit(10):
+                self._do(o)
         except AttributeError:
             return 1
         except ValueError:
             return 2
-        except Exception as ex:   # anything else is reported by the oracle
+        except Exception as ex:   # reported by the oracle
             self.unexpected = '%s: %s' % (type(ex).__name__, ex)
             return 9
         return 0
@@ -638,27 +677,33 @@ def check_history(R, case, model_obs=None):
                                                          impl=[ob['code'], ob['ext'], ab.delay]), None))
                 for d in sorted(ob['ds']):
                     a, b = ob['ds'][d], mo['ds'][d]
+                    if d not in closure:
+                        # a table that is allowed to be stale (dataset outside the collection, or inside a delay block): which
+                        # attributes it lists is determined, but the chains stored for them depend on how the code enumerated
+                        # its set of links when the table was computed, so only the keys are compared
+                        if a['member'] != b['member'] or [c for c, _ in a['table']] != [c for c, _ in b['table']]:
+                            fails.append(('correspondence', dict(where, dataset=d, why='stale table keys', model=[b['member'], b['table']],
+                                                                 impl=[a['member'], a['table']]), None))
+                        continue
                     if a['member'] != b['member'] or a['table'] != b['table']:
                         fails.append(('correspondence', dict(where, dataset=d, why='table', model=[b['member'], b['table']],
                                                              impl=[a['member'], a['table']]), None))
                         continue
-                    if d in closure and b['table'] != b['stored_depth']:
+                    if b['table'] != b['stored_depth']:
                         fails.append(('correspondence', dict(where, dataset=d, why='model: stored depth differs from chain length',
                                                              model=[b['table'], b['stored_depth']]), None))
                     # values: exact wherever every shortest derivation gives the same value; where they differ the model and
                     # the code may legitimately pick different ones (set iteration order) - the oracle above checks membership
-                    amb = None
-                    if d in closure:
-                        amb = set(c for c, vs in closure[d][1].items() if len(vs) > 1)
+                    amb = set(c for c, vs in closure[d][1].items() if len(vs) > 1)
                     for c in universe:
                         va, vb = a['vals'][c], b['vals'][c]
                         if (va is None) != (vb is None):
                             fails.append(('correspondence', dict(where, dataset=d, cid=c, why='readability', model=vb, impl=va), None))
-                        elif va != vb and amb is not None and c not in amb:
+                        elif va != vb and c not in amb:
                             fails.append(('correspondence', dict(where, dataset=d, cid=c, why='value', model=vb, impl=va), None))
                     if (a['mask'] is None) != (b['mask'] is None):
                         fails.append(('correspondence', dict(where, dataset=d, why='mask compatibility', model=b['mask'], impl=a['mask']), None))
-                    elif a['mask'] != b['mask'] and amb is not None and selc not in amb:
+                    elif a['mask'] != b['mask'] and selc not in amb:
                         fails.append(('correspondence', dict(where, dataset=d, why='mask', model=b['mask'], impl=a['mask']), None))
     finally:
         impl.cleanup()
@@ -884,7 +929,7 @@ def run_histories(R, name, cases, exhaustive, bound):
                 continue
             if reported[(kind, key)] > 12:
                 continue
-            if shrunk < 3:
+            if shrunk < 3 and HANGS[0] == 0:
                 shrunk += 1
 
                 def pred(c2, kind=kind):
@@ -899,6 +944,7 @@ def run_histories(R, name, cases, exhaustive, bound):
                     R.fail(kind, case_json(small), f2[0][1], key=None)
                     continue
             R.fail(kind, case_json(case), det, key=None)
+        too_many_hangs()
     if cases:
         R.sample({'stream': name, 'case': case_json(cases[len(cases) // 2])})
     R.stream(name, cases=len(cases), exhaustive=exhaustive, bound=bound)
@@ -981,7 +1027,7 @@ def stream_graphs(R):
 
 # ---------------------------------------------------------------------- stream: random histories
 def stream_random(R):
-    n = R.pick(260, 2600)
+    n = R.pick(800, 3000)
     cases = []
     for i in range(n):
         rng = R.subrng('hist', i)
@@ -994,7 +1040,7 @@ def stream_random(R):
         cases.append(case)
     run_histories(R, 'histories_random', cases, False, '%d histories of 3..12 operations over 2..5 datasets, pools of 3..10 links' % n)
     # link-heavy histories: long chains, cycles and diamonds over many datasets, few removals
-    m = R.pick(80, 800)
+    m = R.pick(250, 1000)
     cases = []
     for i in range(m):
         rng = R.subrng('dense', i)
@@ -1091,7 +1137,13 @@ def run_discover(R, name, cases, exhaustive, bound):
             return cid[c]
         objs = [ComponentLink([get(x) for x in fr], get(to), using=f) for fr, to in links]
         idx = {id(l): j for j, l in enumerate(objs)}
-        res = discover_links(D, objs)
+        try:
+            with time_limit(10):
+                res = discover_links(D, objs)
+        except Hang:
+            R.fail('oracle', {'stream': name, 'own': own, 'links': links}, {'why': 'discover_links did not return within 10 s'})
+            too_many_hangs()
+            continue
         impl = [(num[c], idx[id(l)]) for c, l in res.items()]
         # chain depth through the returned dict
         chosen = {num[c]: links[idx[id(l)]] for c, l in res.items()}
@@ -1120,7 +1172,8 @@ def run_discover(R, name, cases, exhaustive, bound):
             if len(links) > 1:
                 sh = list(objs)
                 rng.shuffle(sh)
-                res2 = discover_links(D, sh)
+                with time_limit(10):
+                    res2 = discover_links(D, sh)
                 if set(num[c] for c in res2) != set(want):
                     R.fail('oracle', case, {'why': 'result depends on the enumeration order of the links'})
         if o is not None:
